@@ -37,6 +37,56 @@ def dist_case(draw, big=False):
     return {"prog": prog, "input": draw(gen.fock_state(nv, nph))}
 
 
+@st.composite
+def bunched_case(draw, big=False):
+    prog = draw(gen.flat_program(min_n=2, max_n=4, max_ops=6))
+    prog, _ = gen.limit_loss(prog, 2)
+    nv = prog["n"]
+    occ = draw(st.lists(st.sampled_from([0, 2, 2, 3, 1]), min_size=nv, max_size=nv))
+    while gen.n_states(prog, sum(occ)) > (30000 if big else 12000) and sum(occ) > 0:
+        i = max(range(nv), key=lambda k: occ[k])
+        occ[i] -= 1
+    return {"prog": prog, "input": occ}
+
+
+@st.composite
+def reuse_case(draw):
+    """One long-lived Sampler; the circuit object is edited between reads."""
+    base = draw(dist_case())
+    prog = base["prog"]
+    base["cut"] = draw(st.integers(0, len(prog["ops"])))
+    base["backend"] = draw(st.sampled_from(["permanent", "slos"]))
+    return base
+
+
+def run_reuse(case):
+    import lightworks as lw
+    from lightworks import emulator
+    from vlib.build import apply_real
+    prog = case["prog"]
+    ops = [op for op in prog["ops"] if op[0] != "plus"]
+    # only edits that keep the number of input modes are applied after construction
+    c = lw.Circuit(prog["n"])
+    early = [op for op in ops if op[0] == "herald"] + [op for op in ops[:case["cut"]] if op[0] != "herald"]
+    late = [op for op in ops[case["cut"]:] if op[0] != "herald"]
+    for op in early:
+        c = call("apply", apply_real, c, op)
+    vin = (list(case["input"]) + [0] * c.input_modes)[:c.input_modes]
+    smp = emulator.Sampler(c, lw.State(list(vin)), backend=case["backend"])
+    ref, injected, n_full = reference(c, vin)
+    d = call("first read", lambda: smp.probability_distribution)
+    check_dist("Sampler first read", d, ref, injected, n_full, c.n_modes)
+    for op in late:
+        c = call("apply", apply_real, c, op)
+    ref, injected, n_full = reference(c, vin)
+    d = call("second read", lambda: smp.probability_distribution)
+    check_dist(f"Sampler[{case['backend']}] after editing its circuit", d, ref, injected, n_full, c.n_modes)
+    added_loss = any(op[0] == "loss" or (op[0] == "bs" and op[5] > 0) or (op[0] == "ps" and op[3] > 0)
+                     for op in late)
+    return {"nontrivial": bool(late) and injected >= 1,
+            "labels": ["loss-added-between-reads"] if added_loss else []}
+
+
 def reference(c, vin):
     from lightworks.sdk.utils import add_heralds_to_state  # only for nothing; not used
     U = c.U_full
@@ -155,5 +205,7 @@ def subs(tier):
     q = tier == "quick"
     return [
         Sub("sampler-distribution", run_dist, strategy=dist_case(big=not q), examples=70 if q else 1200),
+        Sub("bunched", run_dist, strategy=bunched_case(big=not q), examples=40 if q else 600),
+        Sub("edit-between-reads", run_reuse, strategy=reuse_case(), examples=50 if q else 800),
         Sub("backend-direct", run_backend_direct, strategy=dist_case(big=False), examples=30 if q else 400),
     ]
